@@ -167,12 +167,13 @@ func init() {
 		Assumptions: []string{"thin: decides the joining clause and the provenance of pieces only"},
 	})
 	registerProp(&Property{
-		ID: "C19", Core: []string{"FUN-1"}, Kind: "necessary structural clauses (vertex provenance, orientation of the result, symmetry of the funnel)",
+		ID: "C19", Core: []string{"FUN-1"}, Kind: "necessary structural clauses (vertex provenance, orientation of the result, symmetry of the funnel, span tests, stable queue positions)",
 		Tech:  "typed-AST provenance scan of the triangulation, SSA first/last-element resolution on the router's returns, mirror-image comparison of the funnel's sibling cases",
 		Rules: []string{"TRI-1", "PATH-1", "FUN-1", "AXIS-1", "DEQ-1"},
-		Explanation: "Three clauses of the corridor router that are visible in the shape of the code. TRI-1: the special-cased triangulation computes no coordinate - every triangle vertex is a copy of rectangle coordinates (X from an X, Y from a Y), floats are only copied, selected and compared - so the funnel can bend only at corridor vertices, which is where a Euclidean shortest path bends. " +
+		Explanation: "Five clauses of the corridor router that are visible in the shape of the code. TRI-1: the special-cased triangulation computes no coordinate - every triangle vertex is a copy of rectangle coordinates (X from an X, Y from a Y), floats are only copied, selected and compared - so the funnel can bend only at corridor vertices, which is where a Euclidean shortest path bends. " +
 			"PATH-1: on every return the polyline lists the end point first and the start point last (the one-triangle shortcut by position, the accumulated path by its first append and the closing guard). " +
 			"FUN-1 (sibling cross-check): the left-chain and right-chain cases of the funnel, and the two wedge tests they call, are mirror images (front <-> back, < <-> > on queue indices, clockwise <-> counter-clockwise), and each case touches only its own end of the queue. " +
+			"FUN-1 also requires the funnel to be opened by an orientation test whose two branches exchange the end points of the first diagonal. AXIS-1: the point-on-side test of the triangle location treats X and Y alike (a span test on one axis has its counterpart on the other). DEQ-1: the double-ended queue never moves its items (storage assigned at construction only, positions step by one), because the funnel keeps a raw queue position as its apex. " +
 			"Not decided: that the triangulation covers the corridor for every offset pattern (merge/split vertices on either chain), that the dual graph is connected and the diagonal list complete, the bounds of the queue, the treatment of collinear points when both cases make the same choice, optimality and containment themselves - these are facts about run-time values.",
 		Assumptions: []string{"thin: decides vertex provenance, result orientation and chain symmetry only; optimality and containment of the path are not decided"},
 	})
